@@ -51,6 +51,14 @@ Proof.
   destruct buffered; exact Hc.
 Qed.
 
+Theorem seq_property_sound buffered size ops obs fin :
+  seq_property buffered size ops obs fin = true -> windows_ok buffered size ops obs.
+Proof.
+  intros H. unfold seq_property in H.
+  apply andb_true_iff in H. destruct H as [H _]. apply andb_true_iff in H. destruct H as [H1 H2].
+  exact (win_check_sound buffered size ops obs H1 H2).
+Qed.
+
 (* ------------------------------------------------------------------ delivery *)
 
 (* the observed subscriber (received sequence, final queue, closed flag, capacity) is the
